@@ -39,7 +39,7 @@ try:
         if rr.returncode == 2:
             meta['checks'][c]['tail'] = rr.stdout[-600:]
     # restore evidence of the real tree for the checks we disturbed
-    out = '/verif/seeded/%s-%s' % (prop, ab) if ab != '-' else sd
+    out = '/verif/seeded/%s-%s' % (prop, os.environ.get('SEED_AS', ab)) if ab != '-' else sd
     os.makedirs(out, exist_ok=True)
     if ab != '-':
         shutil.copy(patch, out + '/patch.diff')
